@@ -2,12 +2,12 @@
 C18 — Random: each request is fulfilled once, on time, reproducibly, within [0,1).
 Headline theorems about the model `Irismod.Random`, for every state, operation and history.
 
-Two classes of inputs are excluded by explicit hypotheses, because the code really fails on
-them (both reproduced on the unchanged tree, see findings.d/F-rnd-1.json, F-rnd-2.json):
-  * F-rnd-1: block time unix = 0 (the PRNG divides by it),
-  * F-rnd-2: `height + interval >= 2^63` (the due height wraps).
-For each the full statement is kept as a `def … : Prop`, refuted by a concrete witness, and the
-strongest true `_partial` theorem is proved.
+One class of inputs is excluded by an explicit hypothesis, because the code really fails on it
+(reproduced on the real code, findings.d/F-rnd-1.json): block time unix = 0 (the PRNG divides
+by it). The full statement is kept as a `def … : Prop`, refuted by a concrete witness, and the
+strongest true `_partial` theorem is proved. The former second class (F-rnd-2: a due height
+`height + interval >= 2^63` wrapped) is repaired in /repo (f728afa): the handler rejects such an
+interval, and the queue theorems below hold for *all* intervals.
 -/
 import Irismod.Proofs.Random
 
@@ -28,45 +28,44 @@ theorem request_enqueued (s s' : State) (c : String) (ok : Bool) (n : Nat) (tx :
   simp only [step, stepRequest] at h
   split at h; · cases h
   split at h; · cases h
+  split at h; · cases h
   cases h
   exact ⟨AMap.get?_set_self _ _ _, fun key hk => AMap.get?_set_other _ _ _ _ (Ne.symm hk), rfl, rfl⟩
 
-/-- … and for a due height that fits `int64` the key is the due height itself -/
-theorem request_due_height (s : State) (n : Nat) (h0 : 0 ≤ s.height) (hv : s.height + (n : Int) < two63) :
-    ((u64 (s.height + n) : Nat) : Int) = s.height + n :=
-  u64_of_small (by omega) hv
+/-- an accepted request (any interval) has a due height that fits `int64`, so its queue key is the
+    due height `h + n` itself -/
+theorem request_due_height (s s' : State) (c : String) (ok : Bool) (n : Nat) (tx : ByteArray) (feeOk : Bool)
+    (hi : QueueInv requestId s) (h : step s (.request c ok n tx feeOk) = .ok s') :
+    s.height + (n : Int) < two63 ∧ ((u64 (s.height + n) : Nat) : Int) = s.height + n := by
+  simp only [step, stepRequest] at h
+  split at h; · cases h
+  split at h; · cases h
+  split at h; · cases h
+  rename_i hn
+  have hv := accepted_interval hi.height_nonneg hi.height_lt hn
+  exact ⟨hv, u64_of_small (by have := hi.height_nonneg; omega) hv⟩
 
-/-- the full statement "every accepted step of a chain keeps the queue hygienic" without a bound
-    on the interval … -/
-def QueueInvStepAllIntervals : Prop :=
-  ∀ (s s' : State) (c : String) (ok : Bool) (n : Nat) (tx : ByteArray) (feeOk : Bool),
-    n < 2^64 → QueueInv requestId s → step s (.request c ok n tx feeOk) = .ok s' → QueueInv requestId s'
+/-- an interval whose due height would not fit `int64` is rejected (state unchanged), with or
+    without oracle, whatever the service module would have answered -/
+theorem overflowing_interval_rejected (s : State) (c : String) (ok : Bool) (n : Nat) (tx : ByteArray)
+    (fee : String) (feeOk : Bool) (svc : Svc) (h0 : 0 ≤ s.height) (h1 : s.height < two63)
+    (hn : s.height + (n : Int) ≥ two63) :
+    (∃ why, step s (.request c ok n tx feeOk) = .error (.reject why)) ∧
+    (∃ why, step s (.requestOracle c ok n tx fee feeOk svc) = .error (.reject why)) := by
+  have hgt : n > maxInterval s.height := by
+    unfold maxInterval u64 two64; unfold two63 at *; omega
+  constructor
+  · simp only [step, stepRequest]
+    split; · exact ⟨_, rfl⟩
+    split; · exact ⟨_, rfl⟩
+    exact ⟨_, rfl⟩
+  · simp only [step, stepRequestOracle]
+    split; · exact ⟨_, rfl⟩
+    split; · exact ⟨_, rfl⟩
+    exact ⟨_, rfl⟩
 
-def overflowReq : Request :=
-  { height := 10, consumer := "c", txHash := txHashOf ByteArray.empty, oracle := false, feeCap := "", ctxId := "" }
-
-/-- the state after the overflowing request: an entry under height 9 while the chain is at 10 -/
-def overflowPost : State := { height := 10, queue := [((9, requestId 10 "c"), overflowReq)] }
-
-theorem overflow_step :
-    step { height := 10 } (.request "c" true 18446744073709551615 ByteArray.empty true) = .ok overflowPost := by
-  have h9 : u64 ((10 : Int) + ((18446744073709551615 : Nat) : Int)) = 9 := by
-    unfold u64 two64; omega
-  simp only [step, stepRequest, h9]
-  simp [overflowPost, overflowReq, AMap.set]
-
-/-- … is false (F-rnd-2): at height 10 the interval 2^64 - 1 is accepted and queued under height 9 -/
-theorem queueInvStepAllIntervals_false : ¬ QueueInvStepAllIntervals := by
-  intro hall
-  have hi : QueueInv requestId ({ height := 10 } : State) :=
-    ⟨by decide, by decide, by simp, by intro e he; simp at he⟩
-  have hi' := hall _ _ "c" true 18446744073709551615 ByteArray.empty true (by decide) hi overflow_step
-  have := (hi'.entry ((9, requestId 10 "c"), overflowReq) (by simp [overflowPost])).2.2.2.1
-  simp [overflowPost] at this
-
-/-- the strongest true form: with the due height inside `int64` (and block heights advancing by
-    one) every accepted step preserves queue hygiene -/
-theorem queueInv_step_partial (s s' : State) (op : Op) (hi : QueueInv requestId s) (hv : OpValid s op)
+/-- every accepted step of a chain keeps the queue hygienic — for all block intervals -/
+theorem queueInv_step (s s' : State) (op : Op) (hi : QueueInv requestId s) (hv : OpValid s op)
     (h : step s op = .ok s') : QueueInv requestId s' := inv_step hi hv h
 
 /-- queue hygiene over all chain histories -/
@@ -168,12 +167,14 @@ theorem pending_until_due (s : State) (op : Op) (key : Nat × Id) (hp : (AMap.ge
       simp only [step, stepRequest] at hs
       split at hs; · cases hs
       split at hs; · cases hs
+      split at hs; · cases hs
       cases hs
       by_cases hk : (u64 (s.height + n), requestId s.height c) = key
       · simp only; rw [← hk, AMap.get?_set_self]; rfl
       · simp only; rw [AMap.get?_set_other _ _ _ _ hk]; exact hp
     | requestOracle c ok n tx fee feeOk svc =>
       simp only [step, stepRequestOracle] at hs
+      split at hs; · cases hs
       split at hs; · cases hs
       split at hs; · cases hs
       split at hs
@@ -211,6 +212,7 @@ theorem height_monotone (s : State) (op : Op) (hv : OpValid s op) : s.height ≤
     | request c ok n tx feeOk => rw [(request_enqueued s s' c ok n tx feeOk hs).2.2.2]; exact Int.le_refl _
     | requestOracle c ok n tx fee feeOk svc =>
       simp only [step, stepRequestOracle] at hs
+      split at hs; · cases hs
       split at hs; · cases hs
       split at hs; · cases hs
       split at hs
@@ -257,6 +259,7 @@ theorem result_changes_only_by_same_id (s s' : State) (op : Op) (id : Id) (h : s
   | requestOracle c ok n tx fee feeOk svc =>
     left
     simp only [step, stepRequestOracle] at h
+    split at h; · cases h
     split at h; · cases h
     split at h; · cases h
     split at h
